@@ -184,9 +184,27 @@ def run_item(ctx, item):
                                          divs=rng.choice(gen_score.DIVS_POOL))
         hostile = rng.random()
         last = part.last_point.t
-        if hostile < 0.35:                      # division changes off the barlines
-            for _ in range(rng.randint(1, 3)):
-                part.set_quarter_duration(rng.randint(0, last), rng.choice([1, 2, 3, 4, 6, 7, 8, 12, 24, 480]))
+        if hostile < 0.35:                      # division changes off the barlines, in any order, some of them redundant
+            from vmon.refmodels.timeline import TimelineModel
+            tab0 = [(int(t), int(q)) for t, q in part.quarter_durations()]
+            hist = TimelineModel(tab0[0][1])
+            hist.qcands = [dict(tab0)]
+            for _ in range(rng.randint(1, 4)):
+                t_ = rng.randint(0, last)
+                in_force = TimelineModel.q_of(hist.qcands[0], t_)
+                q_ = in_force if rng.random() < 0.3 else rng.choice([1, 2, 3, 4, 6, 7, 8, 12, 24, 480])
+                part.set_quarter_duration(t_, q_)
+                hist.set_quarter(t_, q_)
+            # what was set is what is in force: the table the maps are built from must denote one of the step functions the
+            # call history admits (a redundant call may or may not leave an entry; later calls then differ)
+            got = {int(t): int(q) for t, q in part.quarter_durations()}
+            probe = sorted(set(range(0, last + 2)) if last <= 400 else {x + dx for tabc in hist.qcands + [got] for x in tabc for dx in (-1, 0, 1) if x + dx >= 0})
+            ctx.check()
+            if not hist.q_ambiguous and not any(all(TimelineModel.q_of(tabc, x) == TimelineModel.q_of(got, x) for x in probe) for tabc in hist.qcands):
+                bad = next(x for x in probe if all(TimelineModel.q_of(tabc, x) != TimelineModel.q_of(got, x) for tabc in hist.qcands[:1]))
+                ctx.violation("quarter-duration-table-differs-from-what-was-set",
+                              f"after the calls the part holds {sorted(got.items())[:12]}; the history admits {[sorted(c.items())[:12] for c in hist.qcands[:3]]} (e.g. at t={bad})",
+                              {"table_before": tab0, "table_after": sorted(got.items())})
         if 0.25 < hostile < 0.55:               # signature changes off the barlines
             used = {ts.start.t for ts in timemaps.objects_of(part, S.TimeSignature)}
             for _ in range(rng.randint(1, 2)):
